@@ -246,14 +246,23 @@ impl LibraryPath {
         validate_path_len(source.as_ref())?;
 
         // special handling of the first component as it may contain non-alphanumeric characters
-        let (path, mut num_components) = if source.as_ref().starts_with(Self::KERNEL_PATH) {
-            let split_at = Self::KERNEL_PATH.len() + Self::PATH_DELIM.len();
-            (source.as_ref().split_at(split_at).1, 1)
-        } else if source.as_ref().starts_with(Self::EXEC_PATH) {
-            let split_at = Self::EXEC_PATH.len() + Self::PATH_DELIM.len();
-            (source.as_ref().split_at(split_at).1, 1)
-        } else {
-            (source.as_ref(), 0)
+        let special_prefix = [Self::KERNEL_PATH, Self::EXEC_PATH]
+            .into_iter()
+            .find(|prefix| source.as_ref().starts_with(prefix));
+        let (path, mut num_components) = match special_prefix {
+            Some(prefix) => {
+                let rest = &source.as_ref()[prefix.len()..];
+                if rest.is_empty() {
+                    // the kernel / executable path on its own
+                    return Ok(1);
+                }
+                match rest.strip_prefix(Self::PATH_DELIM) {
+                    Some(rest) => (rest, 1),
+                    // not followed by a delimiter: validated (and rejected) as an ordinary component
+                    None => (source.as_ref(), 0),
+                }
+            }
+            None => (source.as_ref(), 0),
         };
 
         // count the number of components in the path and make sure each component is valid
